@@ -73,7 +73,9 @@ func c03GenCfg(tier string, seed int64, idx int) (sim.GenCfg, int64) {
 	case 1:
 		g.Profile = gen.Profile{Txt: 1, DeleteBias: 45, MaxDepth: 1, Unicode: true, MaxText: 14}
 	case 2:
-		g.Profile = gen.Profile{Tree: 1, DeleteBias: 45, MaxDepth: 1, TreeMixed: idx%2 == 1}
+		// every second tree history is style-heavy: styles and style removals over one or several
+		// elements, the same few attribute keys removed and set again and again
+		g.Profile = gen.Profile{Tree: 1, DeleteBias: 45, MaxDepth: 1, TreeMixed: idx%2 == 1, StyleBias: []int{0, 45}[(idx/2)%2]}
 	case 3:
 		g.Profile = gen.Profile{Obj: 3, Arr: 1, DeleteBias: 40, MaxDepth: 3, NewContainers: 30}
 	}
